@@ -7,6 +7,12 @@ META = {"level": "proof"}
 LG = 'symengine/logic.cpp'
 B2 = r'\(const RCP<const Basic> &lhs, const RCP<const Basic> &rhs\)'
 
+def _pred_unit(prop):
+    import importlib.util
+    spec = importlib.util.spec_from_file_location('units_C06_for_' + prop, os.path.join(os.path.dirname(__file__), '..', 'C06', 'units.py'))
+    m = importlib.util.module_from_spec(spec); spec.loader.exec_module(m)
+    return m.pred_unit(prop)
+
 def units(tier):
     rel = [Piece(LG, r'RCP<const Boolean> %s%s' % (f, B2), rules=G.TOK) for f in ('Eq', 'Ne', 'Le', 'Ge', 'Lt', 'Gt')]
     LN = lambda c: Piece(LG, r'RCP<const Boolean> %s::logical_not\(\) const' % c,
@@ -19,8 +25,10 @@ def units(tier):
              ents, route='F', trusted=G.TRUSTED + ["Basic::__cmp__ is a strict total order consistent with eq (property C02, assumed here)"],
              assumptions=["'relationals on symbolic arguments become correct once numbers are substituted' is not covered (needs subs)",
                           "RealDouble operands are finite (NaN/inf doubles excluded); Integer -> double conversion exact"])
-    return [u]
+    return [u, _pred_unit('C29')]
 
 def replay_args(obl, inputs, res):
+    if '.predicates.' in obl:
+        return [obl] + (['D.i=%s' % inputs['D.i'].get('binary')] if 'D.i' in inputs else [])
     keep = ('a_type', 'a_cls', 'a_v', 'a_bval', 'b_type', 'b_cls', 'b_v', 'b_bval', 'which')
     return [obl] + ["%s=%s" % (k, v.get("binary") or v.get("data")) for k, v in sorted(inputs.items()) if k in keep]
